@@ -107,11 +107,11 @@ func c03Policy(stmts []int) policy.Policy {
 }
 
 type c03Case struct {
-	Pols    [][]int `json:"pols"`     // statement ids per link, leaf first
-	Args    int     `json:"args"`     // argument map carried by the invocation
-	Hook    int     `json:"hook"`     // -1: no hook; otherwise the argument map the hook returns
-	NoMono  bool    `json:"no_mono"`  // skip the successor (monotonicity) exploration
-	MonoOf  *[2]int `json:"mono_of"`  // replay only: successor = add statement [1] to link [0] (link == len -> new root link)
+	Pols   [][]int `json:"pols"`    // statement ids per link, leaf first
+	Args   int     `json:"args"`    // argument map carried by the invocation
+	Hook   int     `json:"hook"`    // -1: no hook; otherwise the argument map the hook returns
+	NoMono bool    `json:"no_mono"` // skip the successor (monotonicity) exploration
+	MonoOf *[2]int `json:"mono_of"` // replay only: successor = add statement [1] to link [0] (link == len -> new root link)
 }
 
 func (c *c03Case) Weight() int {
